@@ -553,6 +553,11 @@ def check_style(fg, bg, attrs):
         p2.add_style(make_style("s0", fg, bg, attrs))
         plain_case("add_style", p2.format(tagged))
         plain_case("add_style.remove_format", f2.remove_format(tagged))
+        # 2a. ... and only there: to any other formatter (created before or after) the tag is still unknown markup
+        for way, other in (("other-plain-formatter", _plain()), ("other-ansi-formatter", _ansi())):
+            seen = other.format(tagged) if way.startswith("other-plain") else strip_sgr(other.format(tagged))
+            if "s0>" not in seen:
+                out.append(("b:style-leaked-to:" + way, "a style added to one formatter is applied by another formatter object", tagged, seen))
         # 2b. added later, seen through an Output that holds the formatter
         s = BufferedOutputStream()
         o = Output(s, f2)
@@ -1071,7 +1076,11 @@ def run_with_program(ansi, chain, r, c):
     exception is raised in the body of scope r (r=0: none) and caught just outside scope c (1<=c<=r), so the
     scopes c..r are left by the exception.  The message is written and checked at every program point."""
     from clikit.io import BufferedIO
-    io = BufferedIO(formatter=_shared_fmt(ansi))
+    if ansi == "section":
+        # the I/O handed out by BufferedIO.section() (undecorated, so its section outputs write plain lines)
+        io = BufferedIO(formatter=_shared_fmt(False)).section()
+    else:
+        io = BufferedIO(formatter=_shared_fmt(ansi))
     ref = [0, 0]
     bad = []
 
@@ -1129,10 +1138,10 @@ def part_d(rep):
     extra_n = [1, 3, 7, 11][rep.seed % 4]
     if t == "thorough":
         runs = [("ansi", True, [0, 2, 5], 4, 6, True), ("plain", False, [0, 2, extra_n], 3, 5, True), ("ansi-nodedup", True, [0, 2, 5], 3, 4, False)]
-        wp = [("with-ansi", True, [0, 2, 5], 4), ("with-plain", False, [0, 2, 5], 3)]
+        wp = [("with-ansi", True, [0, 2, 5], 4), ("with-plain", False, [0, 2, 5], 3), ("with-plain-section-io", "section", [0, 2, 5], 3)]
     else:
         runs = [("ansi", True, [0, 2, 5], 3, 5, True), ("plain", False, [0, 2, extra_n], 2, 4, True), ("ansi-nodedup", True, [0, 2, 5], 2, 3, False)]
-        wp = [("with-ansi", True, [0, 2, 5], 3), ("with-plain", False, [0, 2], 3)]
+        wp = [("with-ansi", True, [0, 2, 5], 3), ("with-plain", False, [0, 2], 3), ("with-plain-section-io", "section", [0, 2], 2)]
     tot_s = tot_t = 0
     all_closed = True
     for name, ansi, ns, nest, depth, dedup in runs:
@@ -1189,7 +1198,7 @@ def replay_d(case):
 # (e) escaped angle brackets: '\\<' is the way to write '<' as a plain character in front of something
 #     that would otherwise be a tag.  Every rendering must show '<' and no backslash, also inside a style.
 # ================================================================================================
-E_ATOMS = [("a", "a"), (" ", " "), ("\0", "\0"), ("\\<b>", "<b>"), ("\\</b>", "</b>"), ("\\<info>", "<info>"), ("\\</>", "</>"),
+E_ATOMS = [("a", "a"), (" ", " "), ("\0", "\0"), ("\x1b[1m", "\x1b[1m"), ("\\<b>", "<b>"), ("\\</b>", "</b>"), ("\\<info>", "<info>"), ("\\</>", "</>"),
            ("\\<fg=red>", "<fg=red>"), ("\\<x", "<x"), ("\\< ", "< "), ("\\<nope>", "<nope>")]
 E_WRAPS = [("", ""), ("<info>", "</info>"), ("<b>", "</>"), ("<c1>", "</c1>"), ("<error>", "</error>"),
            ("<fg=red;options=bold>", "</>"), ("<foo>", "</foo>")]
@@ -1210,6 +1219,10 @@ def run_esc_case(case):
     except Exception as e:
         return report.viol("e:crash:" + report.exc_site(e), "formatting %r raised %r" % (msg, e), {"part": "e", "case": case}, keep, repr(e))
     shown = {k: (strip_sgr(v) if k == "ansi.format" else v) for k, v in obs.items()}
+    if "\x1b" in msg:
+        # the text itself contains an SGR sequence (quoted output of another tool): the undecorated renderings must keep
+        # it byte for byte; the decorated one cannot be told apart from it after stripping and is not judged here
+        del shown["ansi.format"]
     for k, v in sorted(shown.items()):
         if v != keep and v != text:
             where = "styled" if o and o != "<foo>" else "unstyled"
